@@ -358,7 +358,12 @@ func (s *v4Server) addLease(l *dhcpsvc.Lease) (err error) {
 	s.ipIndex[l.IP] = l
 
 	s.leases = append(s.leases, l)
-	s.leasedOffsets.set(offset, true)
+	if inOffset {
+		// Don't mark the offset for the static leases outside of the range,
+		// since the offset is zero for them, which is the first address of the
+		// range.
+		s.leasedOffsets.set(offset, true)
+	}
 
 	return nil
 }
